@@ -413,7 +413,46 @@ def _run_loader(ce, lfq, n, text):
     return first
 
 
-def K2_reader(rep, flow: Flow):
+def _k2_evaluate_lines(rep, flow, tables, clsfq, name, pos, where_txt, shown):
+    """a record field that is COMPUTED from the line: its constructor is evaluated on every line of every shipped stabilizer
+    table (the whole domain of the clause) and the field compared with the documented column"""
+    from . import consteval
+    if tables is None:
+        return False
+    try:
+        cls = flow.prog.cls(clsfq)
+    except AnalysisError:
+        return False
+    init = cls.methods.get("__init__")
+    if init is None or len(init.params) != 3:
+        return False
+    ce = consteval.CE(flow.prog, max_steps=200_000_000)
+    n_eval = 0
+    for tf in tables.stab:
+        for L in tf.lines:
+            cols = L.raw.split(":")
+            if len(cols) < 4 or not cols[pos].strip().lstrip("-").isdigit():
+                continue      # malformed lines are T3's business
+            inst = consteval.Instance(cls)
+            try:
+                ce.call_func(init, [inst, tf.n, L.raw], {})
+            except consteval.CERaise as ex:
+                rep.finding("K2", f"{clsfq}:{name}:raise", f"{where_txt}: building the record from {L.where()} raises {ex.etype} ({ex.msg[:80]})")
+                return True
+            except AnalysisError:
+                return False
+            got = inst.attrs.get(name)
+            n_eval += 1
+            if got != int(cols[pos]):
+                rep.finding("K2", f"{clsfq}:{name}:computed", f"{where_txt}: metadata field .{name} = {shown} is computed from the line; on {L.where()} ({':'.join(cols[:3])}:...) it evaluates to {got!r} while column {pos} says {int(cols[pos])} (evaluated on the shipped lines in file order, first disagreement shown)")
+                return True
+    if n_eval == 0:
+        return False
+    rep.ok("K2", 1, nontrivial=(clsfq, name, "evaluated"), sample=f".{name} = {shown}: computed, equal to column {pos} on all {n_eval} shipped lines (constructor evaluated)")
+    return True
+
+
+def K2_reader(rep, flow: Flow, tables=None):
     rep.rule("K2", "the stabilizer record takes cost / depth / circuit from positions 1 / 2 / 3 of one and the same table line, and the circuit is parsed from position 3 of that line", floor=3)
     m = flow.prog.modules.get("circuit_lookup")
     if m is None:
@@ -451,6 +490,8 @@ def K2_reader(rep, flow: Flow):
                         rep.ok("K2", 1, nontrivial=(f.fq, name), sample=f"{f.qualname}: .{name} = {fmt(v)} (identity on the column)")
                     else:
                         rep.finding("K2", f"{f.fq}:{name}", f"{f.module.rel} {f.qualname}: metadata field .{name} is {fmt(v)}, which differs from the documented column (position {pos} of the ':'-separated line)")
+                elif v is not None and not is_field and _k2_evaluate_lines(rep, flow, tables, d[1], name, pos, f"{f.module.rel} {f.qualname}", fmt(v)[:100]):
+                    pass
                 elif v is not None and not is_field:
                     raise AnalysisError(f"{f.module.rel} {f.qualname}: metadata field .{name} = {fmt(v)[:100]} is computed, not read from a column of the line: whether it equals the documented column is a value-level question K2 cannot decide")
                 else:
